@@ -10,14 +10,16 @@ import harness.props as props
 
 def main():
     for m in sorted(pkgutil.iter_modules(props.__path__), key=lambda m: m.name):
-        mod = importlib.import_module("harness.props." + m.name)
-        chk = getattr(mod, "CHECK", None)
-        if chk is None:
-            continue
         try:
+            mod = importlib.import_module("harness.props." + m.name)
+            chk = getattr(mod, "CHECK", None)
+            if chk is None:
+                continue
             chk.translate(common.Ctx(chk.prop, "quick", 0))
         except common.TranslationError as e:
-            print("translator of %s failed closed: %s" % (chk.prop, e))
+            print("translator of %s failed closed: %s" % (m.name, e))
+        except Exception as e:  # a broken check module must not break the others' setup
+            print("setup: %s: %s: %s" % (m.name, type(e).__name__, e))
     with common.CoqLock():
         common.coq_makefile()
         rc, out = common.sh("timeout 3000 make -k -j14 TIMED=", cwd=common.COQ, timeout=3100)
